@@ -116,8 +116,16 @@ def build(c):
     for k, v in post.items():
       setattr(d, k, v)
     return d
-  return dk.TDevice('t', n, (-4.0, 4.0), float(c['sustainment']), float(c['efficiency']), float(c['t_init']), float(c['t_optimal']),
-                    float(c['t_range']), fl(c['t_external']))
+  # the external temperatures as a list or (decided by the content) as a float ndarray, and for some cases a decoy device built first
+  # from the SAME argument objects: a constructor must not modify what the caller passed
+  h = int(core.case_hash({'e': [str(v) for v in c['t_external']], 's': str(c['sustainment'])}), 16)
+  ext = fl(c['t_external'])
+  if h % 2:
+    ext = np.array(ext, dtype=float)
+  args = ('t', n, (-4.0, 4.0), float(c['sustainment']), float(c['efficiency']), float(c['t_init']), float(c['t_optimal']), float(c['t_range']), ext)
+  if h % 3 == 0:
+    dk.TDevice(*args)
+  return dk.TDevice(*args)
 
 
 def observe(c):
